@@ -188,6 +188,36 @@ def c09b(ck, prog):
                             amp = cf is not None and re.search(r"const 38|'&'", decision.show(decision.bool_expr(cf))) is not None and re.match(r"(eq|Eq)\(", decision.show(decision.bool_expr(cf))) is not None
                             if dflt is not None and str(dflt.get("v")) == "1" and amp:
                                 ok = True
+            if not ok:
+                # the same test as `matches!(input.first(), None | Some(b'&'))` (possibly in a predicate helper): every path to
+                # the visit takes the None edge of first() or an edge on which the first byte is `&`, and no path to any
+                # other exit does
+                from .lib import pathsens
+                vis = [c for c in f.calls() if c.name == visit]
+                firsts = [c for c in f.calls() if c.name == "first" and ".input" in decision.describe_deep(f, c.args[0], 4)]
+
+                def empty_edge(facts):
+                    for fa in facts:
+                        if fa.kind == "variant" and fa.allowed == {"None"} and fa.steps and fa.steps[-1][0] == "call" and fa.steps[-1][1].name == "first":
+                            return True
+                        if fa.kind == "int" and fa.values is not None and set(fa.values) == {38} and "first" in guards.describe_origin(f, fa.steps):
+                            return True
+                        if fa.kind == "cmp" and fa.op == "Eq" and "first" in guards.describe_origin(f, fa.lhs) and fa.rhs and fa.rhs[-1][0] == "const" and guards.const_int(fa.rhs[-1][1]) == 38:
+                            return True
+                    return False
+
+                def nonempty_edge(facts):
+                    for fa in facts:
+                        if fa.kind == "int" and fa.values is None and fa.excluded and 38 in fa.excluded and "first" in guards.describe_origin(f, fa.steps):
+                            return True
+                        if fa.kind == "cmp" and fa.op == "Ne" and "first" in guards.describe_origin(f, fa.lhs) and fa.rhs and fa.rhs[-1][0] == "const" and guards.const_int(fa.rhs[-1][1]) == 38:
+                            return True
+                    return False
+                if len(vis) == 1 and len(firsts) == 1:
+                    to_visit = pathsens.path_avoiding_edges(f, prog, 0, vis[0].bb, empty_edge, constprop=True)
+                    others = [c for c in f.calls() if c.bb != vis[0].bb and (c.name.startswith("visit_") or c.name in ("custom", "next_section"))]
+                    leaks = [c for c in others if pathsens.path_avoiding_edges(f, prog, 0, c.bb, nonempty_edge, constprop=True) is not None]
+                    ok = to_visit is None and bool(others) and not leaks
         ck.ob(R, "reader:%s-empty" % nm, ok, f.loc(None) if f else "", "" if ok else "%s does not produce %s exactly for the empty section" % (nm, visit), how="%s => %s when the section is empty" % (nm, visit))
     # support matrix
     n = 0
@@ -270,7 +300,7 @@ def c09d(ck, prog):
           "although the writer emits each element exactly like a scalar value" % dty[:70], how="seed.deserialize(&mut URLEncodedDeserializer over the element)")
     # the separator is consumed: after the first element the section kept for the next call is advanced past the `,`
     stores = decision.field_stores(f, "section")
-    adv = [bi for bi, st, agg in stores if re.search(r"split_first|get_unchecked|index\(|split_at\(.*const 1|strip_prefix", decision.describe_deep(f, st["r"][1] if st["r"][0] == "use" else st["p"], 4))]
+    adv = [bi for bi, st, agg in stores if re.search(r"split_first|get_unchecked\(.*RangeFrom\{const 1\}|index\(.*RangeFrom\{const 1\}|split_at\(.*const 1|strip_prefix", decision.describe_deep(f, st["r"][1] if st["r"][0] == "use" else st["p"], 4))]
     ok = bool(adv)
     ck.ob(R, "reader:separator-consumed", ok, f.loc(None),
           "" if ok else "no assignment to `section` steps over the `,` that ended the previous element (%d assignment(s) to `section`): the second element would start with the separator" % len(stores),
